@@ -314,6 +314,12 @@ theorem C08_repeat_composeinfo (s : CI.CIState) : (CI.dumpsSt (CI.dumpsSt s).1).
   rw [e]
   exact CI.dumps_touched s.ci ht
 
+/-- **C08 repeat (composeinfo), any number of dumps.**  After `n` dumps in a row on one object (`CI.c8After n s`; each of them
+may have succeeded or failed half-way), the next dump writes exactly what the very first dump wrote (or raises what it raised):
+by induction on `n`, the object stays `Touched` (same sections, forced `is_layered` flags only) and the writer cannot tell. -/
+theorem C08_repeat_composeinfo_n (s : CI.CIState) (n : Nat) : (CI.dumpsSt (CI.c8After n s)).2 = (CI.dumpsSt s).2 :=
+  CI.c8_dumpsSt_of_touched (CI.c8_after_touched n s)
+
 /-- the stateful writer produces the text of the pure one (so every `C08_perm_composeinfo*` statement is about it too), and
 the object it leaves behind differs from the original only in `header.version` (old or current) and in forced
 `is_layered` flags of layered-product variants (`CI.Touched`) -/
@@ -712,5 +718,25 @@ example : ∃ b, CI.dumps CI.wC1 = .ok b ∧ CI.dumps CI.wC2 = .ok b := by
   | error e =>
     have : CI.isOk (CI.dumps CI.wC1) = true := by decide +kernel
     rw [h] at this; cases this
+
+namespace CI
+/-- a compose with a layered-product variant whose release still says `is_layered = False`, header version `0.9` -/
+def wLP : Variant :=
+  .mk k%"LP" k%"LP" k%"LP" k%"n" layeredProduct [k%"x86_64"] []
+    (some { name := k%"L", short := k%"L", version := k%"1", type := k%"ga", isLayered := false, internal := false }) []
+def wSt : CIState := { version := k%"0.9", ci := wCI [wLP] }
+end CI
+
+/-- non-vacuity: the dump of `wSt` succeeds and DOES change the object (header version and the flag), the changed object is not
+the original, and the next dumps write the same text -/
+example :
+    (match CI.dumpsSt CI.wSt with
+     | (s', .ok _) => s'.version == CI.currentVersion && s'.version != CI.wSt.version &&
+         (match s'.ci.variants with
+          | [v] => (v.release.map (·.isLayered)) == some true
+          | _ => false)
+     | _ => false) = true ∧
+    (CI.dumpsSt (CI.c8After 3 CI.wSt)).2 = (CI.dumpsSt CI.wSt).2 :=
+  ⟨by decide +kernel, C08_repeat_composeinfo_n CI.wSt 3⟩
 
 end PM
